@@ -243,6 +243,9 @@ impl Parser {
                 if !arg_errs.is_empty() {
                     return Err(arg_errs);
                 }
+                if const_exprs.is_empty() {
+                    return Err(vec![(ParseErrorEnum::InvalidConstExpr, expr.meta)]);
+                }
                 if f == "max" {
                     Ok(ConstExpr(ConstExprEnum::Max(const_exprs), expr.meta))
                 } else {
